@@ -5,33 +5,38 @@ from vlib import core, diff
 
 MANIFEST = dict(
     engine="E-unusedvar",
-    technique="Coq proof by induction over the walk (pre-order visit list) of an executable model of AstWalker + UnusedVarAnalyzer on the real syntax tree; two-phase differential run of the extracted model against the real analyser on trees the real parser builds; independent token-level oracle stating the property on the source text",
-    text=("Theorems over the Gallina model (all trees, generic in the key function; the code keys by the upper-cased name): the report of a "
-          "file is the concatenation of its methods' reports under WFtop (C15_report_decomposes, C15_unused_per_method: permuting top-level "
-          "declarations permutes the report), each method's warnings are exactly one warning per local that no non-literal terminal other than "
-          "a right operand of a dot names ignoring case, placed on the declared name, under the per-method guards G_flat/G_dup/G_order/G_pos "
-          "(C15_unused_exact; guard-free exact form C15_method_warnings_exactly), placement (C15_placement), equivariance under injective "
-          "renaming (C15_unused_rename). The unguarded statement is still false of the code: C15_per_method_refuted / C15_trailing_refuted (a "
-          "field's absolute target after a method is charged to it), C15_use_before_decl_refuted, C15_duplicate_refuted, and on the property "
-          "read on the text C15_callee_refuted, C15_for_counter_refuted, C15_indexed_member_refuted, each on a dump of the real parser's tree. "
-          "Repaired in /repo and now regression examples: letter case (e5fd419), string-literal content (993bb42). Tie: generated Gold files of "
-          "1..8 methods with 0..6 locals in 17 use categories, method permutations and consistent renamings of every program, exhaustive "
-          "single/pair category sweep, malformed stream: real lexer+parser+walker+analyser vs extracted model on the dumped tree, "
-          "all diagnostics equal; the tree-level Coq specification is itself cross-checked against the text-level oracle."),
-    note=("Trusted: Coq kernel, translators T1/T2/T5, extraction, harness + tree dumper. The property as stated does NOT hold of the code "
-          "(see the *_refuted theorems and known_findings.json); it is proved under explicit guards. Tree-level spec blind spots found "
-          "by the text-level oracle only: a callee name x(..) and a for-counter are not tree nodes (reported unused), self.x[1] counts as a use of x."),
+    technique="Coq proof (structural induction over the tree, fold invariants of the map) about an executable model of AstWalker + UnusedVarAnalyzer on the real syntax tree; two-phase differential run of the extracted model against the real analyser on trees the real parser builds; independent token-level oracle stating the property on the source text",
+    text=("Theorems over the Gallina model, for EVERY tree and generic in the key function (the code keys by the upper-cased name), no guards: "
+          "the warnings of a file are exactly one warning per local variable of each method that no statement of that method mentions outside "
+          "member position, ignoring case, placed on the declared name, in order (C15_unused_exact: unused_vars = unused_spec; C15_reported_iff: the "
+          "iff for one local with the declarative reading MentionsIn of `mentions`; C15_duplicates_exact for the \"already declared\" errors); the "
+          "report of a file is the concatenation of its method nodes' reports, each a function of that node alone (C15_report_decomposes, "
+          "C15_report_methods_only), permuting top-level declarations permutes it (C15_unused_per_method), placement (C15_placement), equivariance "
+          "under renaming of every identifier and token value (C15_unused_rename). Reading of the property on a tree: a method's statements are the "
+          "children of its body node (the header - name, parameters, return type - is not a statement), a name declared again in any case is not a "
+          "new variable, member position = a non-first operand of a dot, the first operand of a dot itself in member position, the base of an indexed "
+          "member; method nodes are the root's children in every parsed tree (top_flat, C15_methods_top_level; checked on every tree of the run). "
+          "The analyser before the repair of tools/c15_proposed_fix.diff falsified the statement in five ways, kept as theorems about the old visit "
+          "function (C15_old_trailing_refuted, C15_old_use_before_decl_refuted, C15_old_callee_refuted, C15_old_for_counter_refuted, "
+          "C15_old_indexed_member_refuted), each beside a regression example on the same dump of the real parser's tree. Repaired earlier: letter "
+          "case (e5fd419), string-literal content (993bb42). Tie: generated Gold files of 1..8 methods with 0..6 locals in 22 use categories, method "
+          "permutations and consistent renamings of every program, exhaustive single/pair category sweep, malformed stream: real "
+          "lexer+parser+walker+analyser vs extracted model on the dumped tree, all diagnostics equal; the extracted tree-level specification "
+          "(unused_spec, dup_spec) equals the text-level oracle AND the implementation's diagnostics on every well-formed case."),
+    note=("Trusted: Coq kernel, translators T1/T2/T5, extraction, harness + tree dumper. The model is the analyser with tools/c15_proposed_fix.diff "
+          "applied; against a /repo without it the regression witnesses (former known findings trailing-toplevel-terminal-charged-to-previous-method, "
+          "use-before-declaration-not-counted, callee-name-not-counted, for-counter-not-counted, indexed-member-counts-as-use) are reported as "
+          "violations. A type name in a declaration (`var y : x`) is not a mention (AstTypeBasic is not a terminal); the generator never emits it."),
     design="6 C15",
     engines=[dict(name="E-unusedvar", path="harness/src/eng_unusedvar.rs + coq/extract/eng_unusedvar.ml",
                   kind_free_text="two-phase differential: text -> real lexer/parser/AstWalker/UnusedVarAnalyzer vs extracted Coq model on the dumped tree; complete sorted diagnostic lists"),
              dict(name="E-unusedvarspec", path="coq/extract/eng_unusedvarspec.ml",
-                  kind_free_text="model-only: extracted tree-level specification (unused_spec) and guard checkers (guard_flags) on the dumped tree, compared with the text-level oracle")],
+                  kind_free_text="model-only: extracted tree-level specification (unused_spec, dup_spec), tree-shape checker (top_flat_b) and the analyser before the repair (analyze_old) on the dumped tree, compared with the text-level oracle and the implementation")],
 )
 
 ASSUMPTIONS = [
-    "the tree the analyser walks is the one harness/src/treedump.rs dumps: kind, get_identifier(), range, op/ident/token attributes, children = get_children_ref (what get_children_ref_dynamic wraps)",
-    "get_pos() == get_range().start for every node that is the left operand of a '.' (kinds overriding get_pos - uses, enum/set types, type/const/field declarations, loop - are never operands); the harness appends !POS to its output if a tree violates this and the oracle then fails",
-    "format!(\"{}:{}\", ident, \"(l:L,c:C)\") is injective in (ident, L, C) (the position suffix is delimited from the right), so comparing to_string_ident_pos strings is comparing (identifier, start position)",
+    "the tree the analyser walks is the one harness/src/treedump.rs dumps: kind, get_identifier(), range, op/ident/token attributes, children = get_children_ref; AstMethodCall.identifier.get_identifier() is the dumped identifier of the call node, AstForBlock.counter_token the dumped K_ident attribute, AstBinaryOp.left_node/right_node and AstArrayAccess.left_node/index_node the two dumped children in this order",
+    "AstProcedure.body / AstFunction.body is the method node's only child of kind AstMethodBody (the parser builds the other children - name, return type, parameter list - of other kinds); an AstTerminal has no children (get_children_ref is None)",
     "HashMap iteration order is unobservable: diagnostics are compared as sorted lists; the model emits a method's warnings in insertion order",
     "identifiers are ASCII: str::to_uppercase is modelled as ASCII upper-casing in the specification's ci_eq (and in the upper-cased-keys variant of the model)",
     "lsp_types::Diagnostic fields other than range, severity and message (source \"gold\", tag UNNECESSARY) are not compared",
@@ -85,8 +90,11 @@ M_START = {"proc", "procedure", "func", "function"}
 M_END = {"endproc", "endfunc"}
 
 # deviations of the code from the property, as switches of the text-level oracle; each is the class
-# predicate of one finding id of known_findings.json
-DEVS = {
+# predicate of one finding id of known_findings.json.  None is open any more: the five below were
+# repaired together (tools/c15_proposed_fix.diff); their switches remain in `analyse` to say what the
+# analyser BEFORE the repair reported (Model analyze_old, the C15_old_*_refuted theorems).
+DEVS = {}
+OLD_DEVS = {
     "trailing-toplevel-terminal-charged-to-previous-method": "trailing",
     "use-before-declaration-not-counted": "before",
     "callee-name-not-counted": "callee",
@@ -148,13 +156,15 @@ def trailing_terminals(dtoks):
 
 
 def analyse(text, devs=frozenset()):
-    """The property's statement on the source text.  Returns (expected, skip):
-    expected = Counter of canonical warnings `2:U:l:c:l:c2:keycps`; skip = set of (line, col) of
-    declarations the property says nothing about (a name declared twice in one method).
-    devs: deviations (values of DEVS) under which the expectation is computed instead."""
+    """The property's statement on the source text.  Returns (expected, dups):
+    expected = Counter of canonical warnings `2:U:l:c:l:c2:keycps`; dups = Counter of (line, col) of the
+    declarations that repeat, in any letter case, a name the same method declared before: such a declaration is not a
+    new variable (it gets "Var name already declared"), the variable is the first declaration.
+    The statements of a method are its body: what follows the header line (name, parameters, return type, modifiers)
+    up to the end keyword.  devs: deviations (values of OLD_DEVS) under which the expectation is computed instead."""
     toks = tokenize(text)
     items = split_items(toks)
-    expected, skip = Counter(), set()
+    expected, dups = Counter(), Counter()
     same = lambda a, b: a.lower() == b.lower()
     for idx, it in enumerate(items):
         if it[0] != "m":
@@ -171,15 +181,17 @@ def analyse(text, devs=frozenset()):
             if k == "id" and s.lower() == "var" and i + 2 < len(body) and body[i + 1][0] == "id" and body[i + 2][1] == ":" \
                and (i == 0 or body[i - 1][2] != l):
                 decls.append(i + 1)
-        names = [body[i][1].lower() for i in decls]
+        declset = set(decls)
+        seen = set()
         for di in decls:
             k, name, l, c = body[di]
-            if names.count(name.lower()) > 1:
-                skip.add((l, c))
+            if name.lower() in seen:
+                dups[(l, c)] += 1
                 continue
+            seen.add(name.lower())
             mentioned = False
             for i, (tk, ts, tl, tc) in enumerate(body):
-                if i == di:
+                if i in declset:
                     continue
                 prev = body[i - 1] if i else None
                 nxt = body[i + 1] if i + 1 < len(body) else None
@@ -201,7 +213,7 @@ def analyse(text, devs=frozenset()):
                     mentioned = True
             if not mentioned:
                 expected["2:U:%d:%d:%d:%d:%s" % (l, c, l, c + len(name), cps(name.lower()))] += 1
-    return expected, skip
+    return expected, dups
 
 
 def parse_out(impl_out):
@@ -223,24 +235,29 @@ def judge(text, impl_out, devs=frozenset()):
     ds, flag = parse_out(impl_out)
     if flag:
         return "assumption broken: left operand of a '.' with get_pos() != get_range().start"
-    expected, skip = analyse(text, devs)
-    got = Counter()
+    expected, dups = analyse(text, devs)
+    got, gotd = Counter(), Counter()
     for d in ds:
         f = d.split(":")
         if len(f) != 7:
             return "unparsable diagnostic %r" % d
         at = (int(f[2]), int(f[3]))
         if f[1] == "U":
-            if at in skip:
-                continue
             if f[0] != "2":
                 return "an unused-variable diagnostic that is not a WARNING: %s" % d
             got[norm(d)] += 1
         elif f[1] == "D":
-            if at not in skip:
-                return "\"Var name already declared\" at %d:%d where no name is declared twice" % at
+            if f[0] != "1":
+                return "a \"Var name already declared\" diagnostic that is not an ERROR: %s" % d
+            gotd[at] += 1
         else:
             return "unexpected diagnostic %r" % d
+    if gotd != dups:
+        extra = sorted((gotd - dups).elements())
+        missing = sorted((dups - gotd).elements())
+        if extra:
+            return "\"Var name already declared\" at %d:%d where no earlier declaration of the method has that name" % extra[0]
+        return "no \"Var name already declared\" for the repeated declaration at %d:%d" % missing[0]
     if got != expected:
         missing = sorted((expected - got).elements())
         extra = sorted((got - expected).elements())
@@ -262,17 +279,21 @@ def judge(text, impl_out, devs=frozenset()):
 NAMES = ["cnt", "idx", "total", "Flag", "tmpVal", "aRec", "x", "y1", "k_2", "myList", "Buf", "n", "res", "sName", "pos9", "W"]
 BASE_CATS = ["never", "once", "dot_right", "nested", "other_method", "other_case"]
 MORE_CATS = ["dot_left", "call_arg", "in_string", "callee", "for_counter", "indexed_member", "before_decl",
-             "absolute", "trailing", "mixed_unused", "mixed_used", "deep_expr", "deep_block", "next_method_name"]
+             "absolute", "trailing", "mixed_unused", "mixed_used", "deep_expr", "deep_block", "next_method_name",
+             "own_method_name", "param_name"]
 CATS = BASE_CATS + MORE_CATS
 # what the PROPERTY says (True = some statement mentions the local other than as a member name after a dot)
 MENTIONED = dict(never=False, once=True, dot_right=False, nested=True, other_method=False, other_case=True,
                  dot_left=True, call_arg=True, in_string=False, callee=True, for_counter=True, indexed_member=False,
                  before_decl=True, absolute=True, trailing=False, mixed_unused=False, mixed_used=True,
-                 deep_expr=True, deep_block=True, next_method_name=False)
+                 deep_expr=True, deep_block=True, next_method_name=False,
+                 # the header of a method is not one of its statements
+                 own_method_name=False, param_name=False)
 
 ONCE = ["{v} = 1", "hlp = {v} + 2", "{v}++", "hlp = ({v} * 3) - 1", "hlp = not {v}", "hlp = -{v}", "hlp = arr[{v}]", "{v}[1] = 2",
         "hlp = tInt({v})", "hlp = [{v}, 2]", "hlp = {v} + {v}", "hlp = 'a' & {v}", "hlp = {v} in [1,2]", "{v} = self", "hlp = ob.meth({v}).fld"]
-DOT_RIGHT = ["self.{v} = 1", "ob.{v} = 2", "hlp = self.{v}", "foo(self.{v})", "self.fld.{v} = 1", "hlp = ob.{v} + 1", "self.{v}(1)", "ob.meth(1).{v} = 2"]
+DOT_RIGHT = ["self.{v} = 1", "ob.{v} = 2", "hlp = self.{v}", "foo(self.{v})", "self.fld.{v} = 1", "hlp = ob.{v} + 1", "self.{v}(1)", "ob.meth(1).{v} = 2",
+             "hlp = ob.{v}.sub", "ob.{v}.fld[1] = 2", "ob.{v}(1).fld = 2", "hlp = ob.{v}[1].fld", "hlp = ob.fld.{v}(2)"]
 DOT_LEFT = ["{v}.Foo = 1", "{v}.Bar(2)", "hlp = {v}.Count", "{v}.fld.sub = 1"]
 CALL_ARG = ["foo({v})", "self.Bar(1, {v})", "foo(1, {v} + 1)", "write({v}, 1)", "inherited foo({v})"]
 IN_STRING = ["foo('{v}')", "hlp = '{v}'", "hlp = \"{v}\""]
@@ -320,8 +341,10 @@ def wrap(rng, lines, depth, v=None):
 def use_lines(rng, cat, v):
     """statement lines of the own method for local v of category cat (None: impossible, e.g. no letter to flip)"""
     f = lambda pool: rng.choice(pool).format(v=v)
-    if cat in ("never", "other_method", "trailing", "next_method_name"):
-        return []      # next_method_name: the method declared right after this one bears the local's name (gen_program)
+    if cat in ("never", "other_method", "trailing", "next_method_name", "own_method_name", "param_name"):
+        # next_method_name: the method declared right after this one bears the local's name; own_method_name: this
+        # method does (gen_program); param_name: one of its parameters does (gen_method)
+        return []
     if cat == "deep_expr":
         n = rng.choice([31, 40, 64, 130])       # the only mention is the operand deepest in a long left-nested chain
         op = rng.choice([" + ", " & ", " - "])
@@ -351,7 +374,9 @@ def use_lines(rng, cat, v):
         return wrap(rng, inner, rng.randint(1, 3))
     if cat == "other_case":
         o = flipcase(rng, v)
-        return None if o is None else [rng.choice(ONCE + CALL_ARG + DOT_LEFT).format(v=o)]
+        if o is not None and rng.random() < .15:
+            return ["for %s = 1 to 3" % o, "   foo()", "endfor"]
+        return None if o is None else [rng.choice(ONCE + CALL_ARG + DOT_LEFT + CALLEE).format(v=o)]
     if cat == "mixed_unused":
         return [f(DOT_RIGHT), f(IN_STRING), "; %s = 1" % v]
     if cat == "mixed_used":
@@ -392,6 +417,9 @@ def gen_method(rng, p, mi, name, locs, cats, other_uses):
     """locs: local names; cats: their categories; other_uses: statement lines mentioning OTHER methods' locals"""
     isf = rng.random() < .4
     params = rng.choice(["", "", "(a : int4)", "(a : int4, inOut b : CString)", "(const pa : tRec)", "(someParam)"])
+    pn = [v for v, c in zip(locs, cats) if c == "param_name"]
+    if pn:
+        params = "(" + ", ".join(rng.choice(["%s : int4", "inOut %s : CString", "const %s : tRec"]) % rng.choice([v, v.upper(), v.lower()]) for v in pn) + ")"
     kw = rng.choice(["proc", "procedure", "Proc"]) if not isf else rng.choice(["func", "function", "Func"])
     header = "%s %s%s%s%s" % (kw, name, params, " return int4" if isf else "", rng.choice(["", "", " override", " private"]))
     end = rng.choice(["endFunc", "endfunc"]) if isf else rng.choice(["endProc", "endproc"])
@@ -468,11 +496,12 @@ def gen_program(rng, cats_pool, nm=None, fixed=None, topdecls=True):
     mnames = ["Meth%d" % i for i in range(nm)]
     for i, (cs, ns) in enumerate(zip(per, locs)):
         for c, v in zip(cs, ns):
-            # (not when the next method declares that name itself: a method named like its OWN local is a different corner,
-            #  on which the tree-level Coq spec - it reads the whole method node, header included - is only used under its guards)
             if c == "next_method_name" and i + 1 < nm and mnames[i + 1].startswith("Meth") and \
-                    v.lower() not in [x.lower() for x in mnames] and v.lower() not in [x.lower() for x in locs[i + 1]]:
+                    v.lower() not in [x.lower() for x in mnames]:
                 mnames[i + 1] = rng.choice([v, v.upper(), v.capitalize()])
+            # a method named like its OWN local: the header is not a statement
+            if c == "own_method_name" and mnames[i].startswith("Meth") and v.lower() not in [x.lower() for x in mnames]:
+                mnames[i] = rng.choice([v, v.upper(), v.capitalize()])
     if topdecls and rng.random() < .6:
         p.items.append(("d", "class aGen%d (aBase)" % rng.randint(1, 9)))
     for i in range(nm):
@@ -552,26 +581,52 @@ def malformed(rng, text):
     return "\n".join(lines)
 
 
-# hand-written programs: the witnesses of the *_refuted theorems (Proofs/UnusedVarWitness.v holds the
-# dumps of exactly these texts) and a few more; (text, expected sorted diagnostics of the CODE AS IT IS)
-# repaired findings (known_findings.json "fixed"): their minimal texts run first and must satisfy the oracle
+# hand-written programs.  REGRESSION: the minimal texts of the repaired findings (known_findings.json "fixed" and the
+# five repaired by tools/c15_proposed_fix.diff); they run first and must satisfy the oracle with no deviation.
 REGRESSION = [
     "proc p\n var x : int4\n X = 1\nendproc",          # e5fd419: a use in another letter case counts
     "proc p\n var s : int4\n foo('s')\nendproc",       # 993bb42: the content of a string literal does not
     "proc p\n var A : int4\nendproc\ntype t : 'A' to 'Z'",   # ... nor in a declaration that follows the method
     "proc p\n var Flag : int4\n var flag : int4\nendproc",   # case variants are ONE name: the second is a duplicate
+    # trailing-toplevel-terminal-charged-to-previous-method
+    "proc p\n var x : int4\nendproc\nmemory f : int4 absolute x\nproc q\nendproc",
+    "proc p\n var x : int4\nendproc\nproc q\nendproc\nmemory f : int4 absolute x",
+    "proc p\n var x : int4\nendproc\ntype tSub : record (x)\n   fc : int4\nendRecord",
+    # use-before-declaration-not-counted
+    "proc p\n x = 1\n var x : int4\nendproc",
+    "proc p\n if cnd\n  foo(X)\n endif\n var x : int4\nendproc",
+    # callee-name-not-counted
+    "proc p\n var x : int4\n x(1)\nendproc",
+    "proc p\n var x : int4\n hlp = X()\nendproc",
+    "proc p\n var x : int4\n self.x(1)\nendproc",          # ... but a called member is a member name
+    # for-counter-not-counted
+    "proc p\n var x : int4\n for x = 1 to 3\n  foo()\n endfor\nendproc",
+    # indexed-member-counts-as-use
+    "proc p\n var x : int4\n self.x[1] = 2\nendproc",
+    "proc p\n var x : int4\n hlp = ob.x[0].fld\nendproc",
+    # the header of a method is not one of its statements
+    "proc x\n var x : int4\nendproc",
+    "proc p(x : int4)\n var x : int4\nendproc",
+    "func X(inOut x : CString) return int4\n var x : int4\n return 1\nendfunc",
 ]
 
+# the trees of Properties/C15.v (Proofs/UnusedVarWitness.v holds the dumps of exactly these texts):
+# (name, text, sorted diagnostics of the code, sorted diagnostics of the analyser BEFORE the repair = Model analyze_old)
 WITNESSES = [
     ("w_ok", "class aC (aP)\n\nmemory g : int4\n\nproc p(a : int4)\n var x : int4\n var y : int4\n var z : int4\n y = a + 1\n self.x = y\n if y > 0\n  z.foo(1)\n endif\nendproc\n\nfunc f return int4\n var x : int4\n var w : int4\n return x\nendfunc\n",
-     "2:U:17:5:17:6:119;2:U:5:5:5:6:120"),
-    ("w_order", "proc p\n x = 1\n var x : int4\nendproc", "2:U:2:5:2:6:120"),
-    ("w_dup", "proc p\n var x : int4\n var x : int4\nendproc", "1:D:2:5:2:6:-;2:U:1:5:1:6:120"),
-    ("w_trail", "proc p\n var x : int4\nendproc\nproc q\nendproc\nmemory f : int4 absolute x", "2:U:1:5:1:6:120"),
-    ("w_trail_perm", "proc p\n var x : int4\nendproc\nmemory f : int4 absolute x\nproc q\nendproc", ""),
-    ("w_callee", "proc p\n var x : int4\n x(1)\nendproc", "2:U:1:5:1:6:120"),
-    ("w_forctr", "proc p\n var x : int4\n for x = 1 to 3\n  foo()\n endfor\nendproc", "2:U:1:5:1:6:120"),
-    ("w_indexed", "proc p\n var x : int4\n self.x[1] = 2\nendproc", ""),
+     "2:U:17:5:17:6:119;2:U:5:5:5:6:120", "2:U:17:5:17:6:119;2:U:5:5:5:6:120"),
+    ("w_order", "proc p\n x = 1\n var x : int4\nendproc", "", "2:U:2:5:2:6:120"),
+    ("w_dup", "proc p\n var x : int4\n var x : int4\nendproc", "1:D:2:5:2:6:-;2:U:1:5:1:6:120", "1:D:2:5:2:6:-;2:U:1:5:1:6:120"),
+    ("w_trail", "proc p\n var x : int4\nendproc\nproc q\nendproc\nmemory f : int4 absolute x", "2:U:1:5:1:6:120", "2:U:1:5:1:6:120"),
+    ("w_trail_perm", "proc p\n var x : int4\nendproc\nmemory f : int4 absolute x\nproc q\nendproc", "2:U:1:5:1:6:120", ""),
+    ("w_callee", "proc p\n var x : int4\n x(1)\nendproc", "", "2:U:1:5:1:6:120"),
+    ("w_forctr", "proc p\n var x : int4\n for x = 1 to 3\n  foo()\n endfor\nendproc", "", "2:U:1:5:1:6:120"),
+    ("w_indexed", "proc p\n var x : int4\n self.x[1] = 2\nendproc", "2:U:1:5:1:6:120", ""),
+    ("w_hdr_name", "proc x\n var x : int4\nendproc", "2:U:1:5:1:6:120", "2:U:1:5:1:6:120"),
+    ("w_hdr_param", "proc p(x : int4)\n var x : int4\nendproc", "2:U:1:5:1:6:120", "2:U:1:5:1:6:120"),
+    ("w_member_call", "proc p\n var x : int4\n self.x(1)\nendproc", "2:U:1:5:1:6:120", "2:U:1:5:1:6:120"),
+    ("w_mixed", "proc p\n var a : int4\n var b : int4\n var c : int4\n var d : int4\n for A = 1 to 3\n  ob.a(B).c[d] = 1\n endfor\nendproc",
+     "2:U:3:5:3:6:99", "2:U:1:5:1:6:97"),
 ]
 
 
@@ -589,8 +644,8 @@ def gen_cases(ctx):
     def add_with_variants(p):
         text = p.render()
         ge = generator_expectation(p, text)
-        oe, skip = analyse(text)
-        if ge != oe or skip:
+        oe, dups = analyse(text)
+        if ge != oe or dups:
             raise RuntimeError("generator and text-level oracle disagree on the expected verdicts:\n%s\ngenerator %r\noracle %r" % (text, ge, oe))
         base = add(text, kind="base")
         nm = p.n_methods()
@@ -608,7 +663,7 @@ def gen_cases(ctx):
 
     for text in REGRESSION:
         add(text, kind="base")
-    for (_, text, _) in WITNESSES:
+    for (_, text, _, _) in WITNESSES:
         add(text, kind="base")
     # exhaustive: one method, one local, every category; every ordered pair of categories in one method;
     # every ordered pair of categories split over two methods
@@ -654,7 +709,7 @@ def warned(text, impl_out):
 
 def make_hooks(ctx, meta):
     seen = {}
-    open_ids = [f.get("id") for f in ctx.open_findings() if f.get("id") in DEVS]
+    open_ids = [f.get("id") for f in ctx.open_findings() if f.get("id") in DEVS]      # DEVS is empty: no deviation is explained
     open_devs = frozenset(DEVS[i] for i in open_ids)
 
     def relational(case, impl_out, m):
@@ -810,36 +865,46 @@ def correspondence(ctx, broken_obligations=()):
     dropped = set(c for c, o in zip(mal, outs) if o.startswith("PANIC") or o == "CRASH")
     cases = [c for c in cases if c not in dropped]
 
-    # 1. the tree-level Coq specification means what the property says: on every well-formed generated
-    #    program, unused_spec (extracted) = the text-level oracle up to the three constructs that are not
-    #    tree nodes / whose parent is not the dot (callee name, for-counter, indexed member), and
-    #    unused_spec_ext = the text-level oracle exactly;
-    #    and where all guards hold, the model's warnings = unused_spec (theorem C15_unused_exact, executed)
+    # 1. the tree-level Coq specification means what the property says: on every well-formed generated program,
+    #    unused_spec (extracted) = the text-level oracle's warnings and dup_spec = its repeated declarations, exactly;
+    #    every tree the real parser builds (damaged programs included) has its method nodes at top level (top_flat:
+    #    the shape under which `all_methods` of the theorems is "the root's method children");
+    #    the analyser before the repair (Model analyze_old, the C15_old_*_refuted theorems) still is what the text-level
+    #    oracle says under the five old deviations
     valid = [c for c in cases if meta[c]["kind"] != "malformed"]
-    io = core.run_lines(hb, "unusedvar", valid)
+    io = core.run_lines(hb, "unusedvar", cases)
     so = core.run_lines(mb, "unusedvarspec", [o.split("#", 1)[0] for o in io])
-    blind = frozenset(["callee", "forctr", "indexed"])
-    flags_hist, wf_ok, wf_cases = Counter(), 0, []
-    for c, o, s in zip(valid, io, so):
-        if "|" not in s:
+    old_devs = frozenset(OLD_DEVS.values())
+    flat_hist, spec_cases, old_checked = Counter(), [], 0
+    for c, o, s in zip(cases, io, so):
+        if s.count("|") != 3:
             fail(ctx, "engine unusedvarspec failed", dict(case=c, case_readable=dec(c), model=s))
             continue
-        flags, spec, spec_ext = s.split("|", 2)
-        flags_hist[flags] += 1
+        flat, spec, dspec, old = s.split("|")
+        flat_hist[flat] += 1
         text = dec(c)
-        exp, skip = analyse(text, blind)
-        spec_c = Counter(norm(d) for d in spec.split(";") if d and (int(d.split(":")[2]), int(d.split(":")[3])) not in skip)
+        if flat != "1":
+            fail(ctx, "a tree of the real parser with a method node that is not a child of the root (top_flat)",
+                 dict(case=c, case_readable=text, model=s))
+        if meta[c]["kind"] == "malformed":
+            continue
+        exp, dups = analyse(text)
+        spec_c = Counter(norm(d) for d in spec.split(";") if d)
         if spec_c != exp:
-            fail(ctx, "the tree-level specification (unused_spec) and the text-level oracle disagree",
+            fail(ctx, "the tree-level specification (unused_spec) and the property stated on the text disagree",
                  dict(case=c, case_readable=text, model=spec, expected=sorted(exp.elements())))
-        pure, _ = analyse(text)
-        ext_c = Counter(norm(d) for d in spec_ext.split(";") if d and (int(d.split(":")[2]), int(d.split(":")[3])) not in skip)
-        if ext_c != pure:
-            fail(ctx, "the extended tree-level specification (unused_spec_ext) and the property stated on the text disagree",
-                 dict(case=c, case_readable=text, model=spec_ext, expected=sorted(pure.elements())))
-        if flags == "11111":
-            wf_ok += 1
-            wf_cases.append((c, o, spec))
+        dspec_c = Counter((int(d.split(":")[2]), int(d.split(":")[3])) for d in dspec.split(";") if d)
+        if dspec_c != dups:
+            fail(ctx, "the tree-level specification of the repeated declarations (dup_spec) and the text-level oracle disagree",
+                 dict(case=c, case_readable=text, model=dspec, expected=sorted(dups.elements())))
+        spec_cases.append((c, o, spec, dspec))
+        if not dups:
+            old_checked += 1
+            oexp, _ = analyse(text, old_devs)
+            old_c = Counter(norm(d) for d in old.split(";") if d)
+            if old_c != oexp:
+                fail(ctx, "the model of the analyser before the repair (analyze_old) is not what the text-level oracle says under the five old deviations",
+                     dict(case=c, case_readable=text, model=old, expected=sorted(oexp.elements())))
     # 2. differential + the property's oracle on the implementation's own output
     oracle, known = make_hooks(ctx, meta)
     kinds = Counter(meta[c]["kind"] for c in cases)
@@ -854,10 +919,9 @@ def correspondence(ctx, broken_obligations=()):
               % (len(CATS), ", ".join(CATS), 450 if ctx.quick else 14000, kinds["malformed"], len(dropped))),
         exhaustive=True, case_kinds=dict(kinds), witnesses_replayed=[w[0] for w in WITNESSES],
         regression_corpus=REGRESSION,
-        refuted=["C15_per_method_refuted", "C15_trailing_refuted",
-                 "C15_use_before_decl_refuted", "C15_duplicate_refuted",
-                 "C15_callee_refuted", "C15_for_counter_refuted", "C15_indexed_member_refuted"],
-        guard_flags_histogram=dict(flags_hist), programs_satisfying_all_guards=wf_ok, spec_vs_text_oracle_checked=len(valid),
+        refuted=["C15_old_trailing_refuted", "C15_old_use_before_decl_refuted", "C15_old_callee_refuted",
+                 "C15_old_for_counter_refuted", "C15_old_indexed_member_refuted"],
+        top_flat_histogram=dict(flat_hist), spec_vs_text_oracle_checked=len(spec_cases), old_model_vs_old_oracle_checked=old_checked,
         samples=[dec(cases[len(WITNESSES) + len(REGRESSION) + 5]), dec([c for c in cases if meta[c]["kind"] == "base"][-1])[:1500],
                  dec([c for c in cases if meta[c]["kind"] == "malformed"][0])[:600]])
     try:
@@ -870,22 +934,30 @@ def correspondence(ctx, broken_obligations=()):
         cov = dict(v.coverage)
     cov.update(extra)
 
-    # 3. the witnesses of the *_refuted theorems still behave as recorded, on both sides
-    wt = [enc(t) for (_, t, _) in WITNESSES]
+    # 3. the trees of Properties/C15.v still behave as recorded: the code and the model as the regression examples say,
+    #    the model of the analyser before the repair as the C15_old_*_refuted theorems say
+    wt = [enc(t) for (_, t, _, _) in WITNESSES]
     wo = core.run_lines(hb, "unusedvar", wt, shards=1)
     wm = core.run_lines(mb, "unusedvar", [o.split("#", 1)[0] for o in wo], shards=1)
-    for (name, text, exp), o, m in zip(WITNESSES, wo, wm):
+    ws = core.run_lines(mb, "unusedvarspec", [o.split("#", 1)[0] for o in wo], shards=1)
+    for (name, text, exp, old), o, m, sp in zip(WITNESSES, wo, wm, ws):
         got = o.split("#", 1)[1] if "#" in o else o
         if got != exp or m != exp:
             fail(ctx, "witness %s of Properties/C15.v no longer behaves as recorded (the model must follow the code)" % name,
                  dict(case=enc(text), case_readable=text, observed=got, model=m, expected=exp))
+        if sp.split("|")[-1] != old:
+            fail(ctx, "witness %s of Properties/C15.v: the model of the analyser before the repair no longer behaves as recorded" % name,
+                 dict(case=enc(text), case_readable=text, model=sp, expected=old))
 
-    # 4. theorem C15_unused_exact, executed: where every guard holds the real analyser's warnings are unused_spec
-    for (c, o, spec) in wf_cases:
-        impl_u = sorted(d for d in o.split("#", 1)[1].replace("!POS", "").split(";") if d and d.split(":")[1] == "U")
-        if impl_u != sorted(d for d in spec.split(";") if d):
-            fail(ctx, "a tree satisfying every guard on which the analyser's warnings differ from unused_spec (theorem C15_unused_exact)",
-                 dict(case=c, case_readable=dec(c), observed=o.split("#", 1)[1], model=spec))
+    # 4. theorems C15_unused_exact / C15_duplicates_exact, executed: on every well-formed case the real analyser's
+    #    warnings are unused_spec and its errors dup_spec (no guard)
+    for (c, o, spec, dspec) in spec_cases:
+        ds = [d for d in o.split("#", 1)[1].replace("!POS", "").split("!DIRECT[")[0].split(";") if d]
+        impl_u = sorted(d for d in ds if d.split(":")[1] == "U")
+        impl_d = sorted(d for d in ds if d.split(":")[1] == "D")
+        if impl_u != sorted(d for d in spec.split(";") if d) or impl_d != sorted(d for d in dspec.split(";") if d):
+            fail(ctx, "a tree on which the analyser's diagnostics differ from unused_spec / dup_spec (theorems C15_unused_exact, C15_duplicates_exact)",
+                 dict(case=c, case_readable=dec(c), observed=o.split("#", 1)[1], model=spec + "|" + dspec))
     if PENDING:
         PENDING[0].coverage = cov
         raise PENDING[0]
